@@ -17,7 +17,8 @@ def run(tier, seed):
     # the null-terminated readers leave the stream just past the terminator, for every length (inductive contracts); arrays with a
     # symbolic count consume count*size
     arr = [sp for sp in leaf.array_specs(tier) if sp[1] != "make_array" or sp[2][2] in ("read_array_n", "read_0")]
-    rep.add_case_results(run_cases([("contracts.dispatch", "make_dispatch", ("is_eof",)), ("contracts.dispatch", "make_dispatch", ("forms",))] + arr), "T1")
+    rep.add_case_results(run_cases([("contracts.dispatch", "make_dispatch", ("is_eof",)), ("contracts.dispatch", "make_dispatch", ("forms",)),
+                                    ("contracts.dispatch", "make_dispatch", ("forms:>",)), ("contracts.dispatch", "make_dispatch", ("forms:!",))] + arr), "T1")
     progs = programs_for(tier, seed)
     run_pipeline(rep, progs, ["C09"])
     # input kinds x call forms on the whole family (executed: the dispatch itself is proved above on representative types)
